@@ -127,7 +127,7 @@ Theorem C11_source_translation :
   agrees2 gen_advance_to_file (fun s f => (fst (step s (Advance f)), true)) /\
   agrees2 gen_set_peer (fun s p => (fst (step s (SetPeer p)), false)) /\
   match gen_wait_for_credit with
-  | Some f => forall s len,
+  | Some f => forall s len, t_window s < two64 ->
       let '(s', i, nt) := f s len true in
       (s', iter_map out_of_credit i, nt) = (fst (step s (TryCredit len)), Some (snd (step s (TryCredit len))), false)
   | None => True
@@ -141,7 +141,7 @@ Check C11_source_translation :
   agrees2 gen_advance_to_file (fun s f => (fst (step s (Advance f)), true)) /\
   agrees2 gen_set_peer (fun s p => (fst (step s (SetPeer p)), false)) /\
   match gen_wait_for_credit with
-  | Some f => forall s len,
+  | Some f => forall s len, t_window s < two64 ->
       let '(s', i, nt) := f s len true in
       (s', iter_map out_of_credit i, nt) = (fst (step s (TryCredit len)), Some (snd (step s (TryCredit len))), false)
   | None => True
